@@ -156,7 +156,12 @@ func LockThenBreak(cl *qsim.Cluster, track func()) string {
 			vp = x
 		}
 	}
-	trick := rng.Intn(8)
+	trick := rng.Intn(10)
+	// a neighbouring height of the same validator and role, at which the correct operators signed messages too
+	hOther := h + 1
+	if h > 0 {
+		hOther = h - 1
+	}
 	var rcs, prs []*specqbft.SignedMessage
 	cur := qsim.UniqueBySigner(cl.SeenOf(specqbft.RoundChangeMsgType, rB), nil)
 	name := ""
@@ -194,6 +199,28 @@ func LockThenBreak(cl *qsim.Cluster, track func()) string {
 		name = "prepared-round-changes-with-stale-prepares-of-other-round"
 		rcs = append(cur, cl.MkRoundChange(b, rB, false))
 		prs = qsim.UniqueBySigner(cl.SeenOf(specqbft.PrepareMsgType, 0), nil)
+	case 8:
+		// the correct operators' unprepared round-changes for this very round number, but signed at another height (where that
+		// round had failed too), plus a fresh one of the leader
+		name = "round-changes-replayed-from-another-height"
+		rcs = []*specqbft.SignedMessage{cl.MkRoundChange(b, rB, false)}
+		for _, x := range hon {
+			rcs = append(rcs, cl.MkUnpreparedRCAt(x, hOther, rB))
+		}
+	case 9:
+		// the leader claims to be prepared on the other value in round rB-1, "justified" by prepares the correct operators signed
+		// for that round and value at another height
+		name = "prepares-replayed-from-another-height"
+		var ps []*specqbft.SignedMessage
+		for _, z := range byz {
+			ps = append(ps, cl.MkSimple(z, specqbft.PrepareMsgType, rB-1, qsim.Root(vp)))
+		}
+		for _, x := range hon {
+			ps = append(ps, cl.MkSimpleAt(x, hOther, specqbft.PrepareMsgType, rB-1, qsim.Root(vp)))
+		}
+		forged := cl.MkPreparedRCWith(b, rB, rB-1, vp, ps)
+		rcs = append(cur, forged)
+		prs = ps
 	default:
 		name = "duplicate-byzantine-round-changes"
 		for i := 0; i < n; i++ {
